@@ -325,7 +325,8 @@ Definition canon_eqb (a b : list seg) : bool := list_eqb cseg_eqb (canon a) (can
 Definition segs_len (l : list seg) : N := fold_right (fun '(_, _, n) acc => (n + acc)%N) 0%N l.
 
 (* ---------- structural well-formedness (what every codec must at least insist on) ----------
-   stream ::= name (" " locator)+ (" " file-segment)+ with numeric fields and every segment inside the stream.
+   stream ::= name (" " locator)+ (" " file-segment)+ with numeric fields and every non-empty segment inside the
+   stream (a zero-size token selects no bytes: the collection filesystem does not range-check its directory markers).
    Lexical details (hash alphabet, hints, signs on numbers, character classes) are deliberately not part of it. *)
 Definition lenient_num (s : string) : option N :=
   let '(neg, body) :=
@@ -352,7 +353,7 @@ Definition wf_line (line : string) : bool :=
       negb (String.eqb name "") &&
       let '(locs, fts) := span_nocolon rest in
       match locs, fts, map_opt wf_locator locs, map_opt wf_ftok fts with
-      | _ :: _, _ :: _, Some sizes, Some ranges => forallb (fun '(p, s) => (p + s <=? total sizes)%N) ranges
+      | _ :: _, _ :: _, Some sizes, Some ranges => forallb (fun '(p, s) => (s =? 0)%N || (p + s <=? total sizes)%N) ranges
       | _, _, _, _ => false
       end
   | [] => false
